@@ -2887,8 +2887,9 @@ class SequenceAndSetBase(base.ConstructedAsn1Type):
         mapping = {}
 
         for idx, value in enumerate(self._componentValues):
-            # Absent fields are not in the mapping
-            if value is noValue:
+            # Absent fields are not in the mapping, nor is the schema
+            # placeholder that a read leaves in the slot of one
+            if value is noValue or not value.isValue:
                 continue
 
             if self._componentTypeLen:
